@@ -259,23 +259,25 @@ theorem walk_tail (w1 : Walk) (n : Nat) (s e : Int) (i j : Nat) :
 
 /-- The states the node's query can be in: NewQuery's shape with some times and, under alignGroup, some
 group-by offset. -/
-def Reach (user : Option Cond) (gb : Option (Int × Int)) (ag : Bool) (q : Query) : Prop :=
+def Reach (user : Option Cond) (gb : Option (Int × Int)) (ag : Bool) (q : Query) (extra : String := "") : Prop :=
   ∃ s e g, q = { cond := splice user s e, startIdx := userAtoms user, stopIdx := userAtoms user + 1,
-                 gb := g, gbLinked := true, alignGroup := ag } ∧
+                 gb := g, gbLinked := true, alignGroup := ag, extra := extra } ∧
     g.map (·.1) = gb.map (·.1) ∧ (ag = false → g = gb)
 
 /-- What is issued for a range, as a function of the configuration only. -/
-def issueFor (user : Option Cond) (gb : Option (Int × Int)) (ag : Bool) (r : Int × Int) : Issued :=
+def issueFor (user : Option Cond) (gb : Option (Int × Int)) (ag : Bool) (r : Int × Int) (extra : String := "") : Issued :=
   { cond := parse (splice user r.1 r.2).print,
-    gb := if ag then gb.map (fun p => (p.1, Int.tmod r.1 p.1)) else gb }
+    gb := if ag then gb.map (fun p => (p.1, Int.tmod r.1 p.1)) else gb,
+    extra := extra }
 
-theorem reach_new (user : Option Cond) (gb : Option (Int × Int)) (ag : Bool) : Reach user gb ag (newQuery user gb ag) := by
+theorem reach_new (user : Option Cond) (gb : Option (Int × Int)) (ag : Bool) (extra : String) :
+    Reach user gb ag (newQuery user gb ag extra) extra := by
   refine ⟨0, 0, gb, ?_, rfl, fun _ => rfl⟩
   cases user <;> simp [newQuery, newQueryWith, userAtoms]
 
-theorem reach_setRange {user : Option Cond} {gb : Option (Int × Int)} {ag : Bool} {q : Query}
-    (hq : Reach user gb ag q) (r : Int × Int) :
-    Reach user gb ag (q.setRange r) ∧ (q.setRange r).issue = issueFor user gb ag r := by
+theorem reach_setRange {user : Option Cond} {gb : Option (Int × Int)} {ag : Bool} {extra : String} {q : Query}
+    (hq : Reach user gb ag q extra) (r : Int × Int) :
+    Reach user gb ag (q.setRange r) extra ∧ (q.setRange r).issue = issueFor user gb ag r extra := by
   obtain ⟨s, e, g, rfl, hg1, hg2⟩ := hq
   have hgb : (if ag then g.map (fun p => (p.1, Int.tmod r.1 p.1)) else g) =
              (if ag then gb.map (fun p => (p.1, Int.tmod r.1 p.1)) else gb) := by
@@ -298,14 +300,14 @@ theorem reach_setRange {user : Option Cond} {gb : Option (Int × Int)} {ag : Boo
       splice_set_start, splice_set_stop, Bool.and_true]
     rw [hgb]
 
-theorem reach_clone {user : Option Cond} {gb : Option (Int × Int)} {ag : Bool} {q : Query}
-    (hq : Reach user gb ag q) (hu : userNoTL user = true) : q.clone = some q := by
+theorem reach_clone {user : Option Cond} {gb : Option (Int × Int)} {ag : Bool} {extra : String} {q : Query}
+    (hq : Reach user gb ag q extra) (hu : userNoTL user = true) : q.clone = some q := by
   obtain ⟨s, e, g, rfl, _, _⟩ := hq
   simp [Query.clone, Query.cloneWith, walk_splice user s e hu]
 
-theorem liveRun_eq {user : Option Cond} {gb : Option (Int × Int)} {ag : Bool} (offset period : Int) :
-    ∀ (ticks : List Int) (q : Query), Reach user gb ag q →
-      liveRun offset period q ticks = ticks.map (fun T => issueFor user gb ag (tickRange offset period T)) := by
+theorem liveRun_eq {user : Option Cond} {gb : Option (Int × Int)} {ag : Bool} {extra : String} (offset period : Int) :
+    ∀ (ticks : List Int) (q : Query), Reach user gb ag q extra →
+      liveRun offset period q ticks = ticks.map (fun T => issueFor user gb ag (tickRange offset period T) extra) := by
   intro ticks
   induction ticks with
   | nil => intro q _; rfl
@@ -320,15 +322,15 @@ theorem mapM_some_map {α β : Type} (f : α → β) (l : List α) : l.mapM (fun
   | nil => rfl
   | cons a l ih => simp [List.mapM_cons, ih]
 
-theorem queries_eq {user : Option Cond} {gb : Option (Int × Int)} {ag : Bool} (next : Int → Option Int)
-    (offset period : Int) (q : Query) (hq : Reach user gb ag q) (hu : userNoTL user = true)
+theorem queries_eq {user : Option Cond} {gb : Option (Int × Int)} {ag : Bool} {extra : String} (next : Int → Option Int)
+    (offset period : Int) (q : Query) (hq : Reach user gb ag q extra) (hu : userNoTL user = true)
     (start : Int) (stop : Option Int) (now : Int) :
     queries next offset period q start stop now =
       some ((histTicks next (effStop stop now) now offset (histFuel start (effStop stop now)) start).map
-        (fun T => issueFor user gb ag (tickRange offset period T))) := by
+        (fun T => issueFor user gb ag (tickRange offset period T) extra)) := by
   simp only [queries, queriesWith, reach_clone hq hu, Option.map_some]
   have : (fun c => some ((q.setRange (tickRange offset period c)).issue)) =
-         (fun c => some (issueFor user gb ag (tickRange offset period c))) := by
+         (fun c => some (issueFor user gb ag (tickRange offset period c) extra)) := by
     funext c; rw [(reach_setRange hq _).2]
   simp only [this]
   exact mapM_some_map _ _
